@@ -17,6 +17,17 @@ CLAIMED = {
         note="Trusted: Coq kernel + vm_compute; the correspondence harness (generator quality bounds it); CPython int/"
              "bytearray/slice semantics as transcribed. No axioms (Print Assumptions: closed).",
         technique="Coq proof by bit-extensionality over a hand model + vm_compute correspondence with the implementation"),
+    "C14": dict(
+        text="Complete enumeration inside the Coq kernel (vm_compute, lifted to quantified statements by forallb_forall) of every "
+             "entry of the five opcode tables, their service-action tables and the status table REGENERATED from "
+             "scsi_enum_command.py on every run, against a hand-written T10 table (Spec/T10Opcodes.v, Spec/SAM.v); consistency of "
+             "names across sets; init_cdb's range table (regenerated from scsi_command.py) equals the SAM group rule for all 256 "
+             "operation codes. Finite domains, exhaustive, bounds in the statements.",
+        ref="DESIGN.md §4 C14",
+        note="Trusted: Coq kernel + vm_compute; the translator (validated against runtime reflection of the Enum objects on every run); "
+             "Spec/T10Opcodes.v and Spec/SAM.v (my transcription of T10's assignments); 8-line hand model of the range-table "
+             "semantics tied by exhaustive correspondence over 0..255.",
+        technique="Coq proof by reflection (vm_compute over regenerated tables vs. T10 spec) + exhaustive correspondence"),
 }
 
 NOT_YET = "not yet built in this round (machinery under construction); see DESIGN.md §4 for the planned Coq model and theorems"
